@@ -78,7 +78,9 @@ func (ch *child) runSvc(sp *Spec) (restart bool) {
 	}
 	if sent {
 		// a reply or a close
-		cl.WaitFor(func(svcclient.Msg) bool { return true }, 60*time.Second)
+		// a reply or a close (the unchanged code answers or closes at once; a server that
+		// does neither is caught by the follow-ups, there is no point in waiting long)
+		cl.WaitFor(func(svcclient.Msg) bool { return true }, 8*time.Second)
 	}
 	ch.rec.Observe("svc_handshakes", 1)
 	ch.rec.Observe("expect:svc-"+sp.Expect, 1)
